@@ -23,6 +23,22 @@ from .. import common as C
 PROP = "C03"
 
 
+def eval_cases_private(prop, header, checks):
+    """C.eval_cases with scratch file names that are unique per process (concurrent runs of the same check, e.g.
+    against different VERIF_REPO trees, must not overwrite each other's cases files); files removed afterwards."""
+    import glob
+    import os
+    name = "corr_p%d" % os.getpid()
+    try:
+        return C.eval_cases(prop, name, header, checks)
+    finally:
+        for fn in glob.glob(os.path.join(C.run_dir(prop), "*cases_%s_*" % name)):
+            try:
+                os.remove(fn)
+            except OSError:
+                pass
+
+
 # ======================================================================================================
 # trees
 # ======================================================================================================
@@ -100,6 +116,16 @@ class Impl:
             return self.op(t[2]).scale(t[1])
         if k == "ptw":
             return self.op(t[3]).ptw(t[1], *t[2])
+        if k in ("lsub", "lsubf"):
+            # LINEAR difference (SumOperator with a negated summand) of two linear operators;
+            # lsub: through a MultiDomain target {'x': .} (ducktape_left) and back, lsubf: field target
+            a, b = self.op(t[1]), self.op(t[2])
+            if not (isinstance(a, ift.LinearOperator) and isinstance(b, ift.LinearOperator)):
+                raise ValueError("lsub needs linear operands")
+            if k == "lsubf":
+                return a - b
+            d = a.ducktape_left("x") - b.ducktape_left("x")
+            return ift.FieldAdapter(a.target, "x") @ d
         if k == "real":
             return self.op(t[1]).real              # Realizer @ op
         if k == "imag":
@@ -149,6 +175,8 @@ class Impl:
             return self.lin(t[2], l0) * t[1]
         if k == "ptw":
             return self.lin(t[3], l0).ptw(t[1], *t[2])
+        if k in ("lsub", "lsubf"):
+            return self.lin(t[1], l0) - self.lin(t[2], l0)
         if k == "real":
             return self.lin(t[1], l0).real         # Linearization.real
         if k == "imag":
@@ -307,6 +335,8 @@ def ref(t, x, n):
         r = [u * w for u, w in zip(ref(t[1], x, n), ref(t[2], x, n))]
     elif k == "add":
         r = [u + w for u, w in zip(ref(t[1], x, n), ref(t[2], x, n))]
+    elif k in ("lsub", "lsubf"):
+        r = [u - w for u, w in zip(ref(t[1], x, n), ref(t[2], x, n))]
     elif k == "sum":
         r = [sum(ref(t[1], x, n))]
     elif k == "vdot":
@@ -357,7 +387,7 @@ def pathmag(t, x, n):
         a1, l1 = pathmag(t[1], x, n)
         a2, l2 = pathmag(t[2], x, n)
         return max(a1 * mx(ref(t[2], x, n)), a2 * mx(ref(t[1], x, n))), l1 + l2
-    if k in ("add", "eadd"):
+    if k in ("add", "eadd", "lsub", "lsubf"):
         a1, l1 = pathmag(t[1], x, n)
         a2, l2 = pathmag(t[2], x, n)
         return max(a1, a2), l1 + l2
@@ -435,6 +465,15 @@ def gen_tree(rng, depth, n, K, shp="F"):
     if c == 7:
         return ("mul", gen_tree(rng, depth - 1, n, K, shp), gen_tree(rng, depth - 1, n, K, shp))
     return ("add", gen_tree(rng, depth - 1, n, K, shp), gen_tree(rng, depth - 1, n, K, shp))
+
+
+def gen_linear(rng, depth, n, K):
+    """linear operator expressions (FieldAdapter, diagonal, scaling) -- operands of a linear SumOperator"""
+    if depth <= 0 or rng.random() < 0.3:
+        return ("var", int(rng.integers(0, K)))
+    if rng.random() < 0.5:
+        return ("mulc", [dy(rng, -2, 2, nz=True) for _ in range(n)], gen_linear(rng, depth - 1, n, K))
+    return ("scale", dy(rng, -2, 2, nz=True), gen_linear(rng, depth - 1, n, K))
 
 
 def gen_energy(rng, depth, n, K):
@@ -528,6 +567,9 @@ def cexpr(t, n):
         return "(Mul %s %s)" % (cexpr(t[1], n), cexpr(t[2], n))
     if k == "add":
         return "(Add %s %s)" % (cexpr(t[1], n), cexpr(t[2], n))
+    if k in ("lsub", "lsubf"):
+        # the linear SumOperator a - b is modelled by its meaning  a + (-1)*b
+        return "(Add %s (Scale (q (-1) 1) %s))" % (cexpr(t[1], n), cexpr(t[2], n))
     m = n
     if k == "sum":
         return "(Sum %d %s)" % (m if shape(t[1]) == "F" else 1, cexpr(t[1], n))
@@ -956,7 +998,7 @@ class C03(C.Check):
             except Exception as e:      # the implementation raised on a well-formed tree
                 checks.append("false")
                 meta.append((ci, "raised %s: %s" % (type(e).__name__, str(e)[:200])))
-        bad = C.eval_cases(self.prop, "corr", HEADER, checks)
+        bad = eval_cases_private(self.prop, HEADER, checks)
         for i in bad[:4]:
             ci, how = meta[i]
             c = cases[ci]
